@@ -1706,6 +1706,8 @@ error:
 		free(opttitle);
 	if (comment)
 		free(comment);
+	/* arguments collected for a function call that was never made */
+	cfg_free_value(&funcopt);
 
 	return STATE_ERROR;
 }
